@@ -80,7 +80,7 @@ def gen_script(rng, tier):
         out = ['ok', rng.randrange(0, 1000)] if rng.random() < 0.7 else ['err', rng.randrange(1, 50)]
         calls.append([rng.choice(attrs), a, k, rng.random() < 0.4, out])
     return {'kind': 'proxy', 'classes': classes, 'shape': rng.choice(['chain', 'chain', 'mixin']), 'calls': calls,
-            'disp': rng.choice(['stub', 'stub', 'stub', 'real-open', 'real-preopen'])}
+            'disp': rng.choice(['stub', 'stub', 'stub', 'real-open', 'real-preopen']), 'alias': rng.random() < 0.3}
 
 
 HOSTCH = 'abcdefghijklmnopqrstuvwxyzABCXYZ0123456789.-_~%!$&*+;='
@@ -194,6 +194,12 @@ def _make_fn(name, sig):
     return f
 
 
+def _own_name(name):
+    """a function name different from the attribute name it is reached under (an alias, a decorator without
+    functools.wraps, a method attached with setattr), with the same leading/trailing double underscores"""
+    return name[:2] + 'Impl' + name[-2:]
+
+
 def nm(s):
     return '.' + s
 
@@ -208,15 +214,28 @@ def run_script(script):
     tags, steps = set(), []
     classes = script['classes']
     built = []
+    if script.get('alias'):
+        # every other method is reached under an attribute name that is not its function's __name__
+        tags.add('attribute-name-differs-from-function-name')
+        _mk = _make_fn
+
+        def mkfn(n, sg, _c=[0]):
+            f = _mk(n, sg)
+            _c[0] += 1
+            if _c[0] % 2:
+                f.__name__ = f.__qualname__ = _own_name(n)
+            return f
+    else:
+        mkfn = _make_fn
     if script.get('shape') == 'mixin' and len(classes) > 1:
-        others = [type('B%d' % i, (object,), {n: _make_fn(n, s) for n, s in c})
+        others = [type('B%d' % i, (object,), {n: mkfn(n, s) for n, s in c})
                   for i, c in enumerate(classes[1:])]
-        iface = type('Iface', tuple(others), {n: _make_fn(n, s) for n, s in classes[0]})
+        iface = type('Iface', tuple(others), {n: mkfn(n, s) for n, s in classes[0]})
         tags.add('inherit')
     else:
         parent = object
         for i, c in reversed(list(enumerate(classes))):
-            parent = type('C%d' % i, (parent,), {n: _make_fn(n, s) for n, s in c})
+            parent = type('C%d' % i, (parent,), {n: mkfn(n, s) for n, s in c})
         iface = parent
         if len(classes) > 1:
             tags.add('inherit')
